@@ -301,6 +301,11 @@ func (c *FnCtx) getCell(st *State, cell *Cell) *Term {
 			c.globalTyped[cell] = true
 			// representation invariants of the variable's entry value (pointers/functions are allocated objects, ...)
 			c.typeFacts(&State{pc: c.eng.ts.Bool(true), wm: c.eng.ts.Named("wm!entry", SInt)}, cell.init, cell.typ)
+			if cell.global.Pkg != nil && cell.global.Pkg.Pkg != c.eng.ld.Pkg && types.TypeString(cell.typ, nil) == "error" {
+				// sentinel errors of other packages (io.EOF, io.ErrNoProgress, ...) are non-nil and never reassigned
+				c.facts = append(c.facts, c.eng.ts.Not(c.eng.tc.IsNilVal(cell.init)))
+				c.triggers = append(c.triggers, nil)
+			}
 		}
 	}
 	if v, ok := st.cells[cell]; ok {
